@@ -261,10 +261,14 @@ func genFWLife(w *bufio.Writer, thorough bool, r *Rng) {
 	if thorough {
 		dn = 200
 	}
+	firsts := []string{"bs=4194304", "bs=1048576", "bs=262144", "leg=1", "bs=65536", "leg=1,bs=262144"}
+	seconds := []string{"bs=65536", "leg=0", "bs=262144", "leg=0,bs=65536", "bs=1048576", "leg=0,bs=262144"}
+	if dn < len(firsts)*len(seconds) {
+		dn = len(firsts) * len(seconds)
+	}
 	for i := 0; i < dn; i++ {
-		firsts := []string{"bs=4194304", "bs=1048576", "bs=262144", "leg=1", "bs=65536"}
-		seconds := []string{"bs=65536", "bs=65536", "bs=262144", "leg=0,bs=65536", "bs=1048576"}
-		first, second := firsts[r.Intn(len(firsts))], seconds[r.Intn(len(seconds))]
+		// every (first, second) pair at least once
+		first, second := firsts[i%len(firsts)], seconds[i/len(firsts)%len(seconds)]
 		conc := r.Pick([]int{1, 1, 2, 4})
 		fa := -1
 		if r.Intn(3) == 0 {
@@ -280,6 +284,13 @@ func genFWLife(w *bufio.Writer, thorough bool, r *Rng) {
 			ops = append(ops, "f", "w:"+dataTok(r, 66000, 0))
 		}
 		ops = append(ops, "c")
+		// and a third frame: what a Reset restores must not come back once it was overridden
+		switch r.Intn(3) {
+		case 0:
+			ops = append(ops, "R:-1", "w:"+dataTok(r, r.Pick([]int{100, 70000, 300000}), 0), "c")
+		case 1:
+			ops = append(ops, "R:-1", "A:bc=1", "w:"+dataTok(r, r.Pick([]int{100, 70000, 300000}), 0), "c")
+		}
 		fmt.Fprintf(w, "W %d %s\n", fa, strings.Join(ops, " "))
 	}
 	n := 1500
@@ -968,7 +979,7 @@ func genFRFail(w *bufio.Writer, thorough bool, r *Rng) {
 		// the k-th source call fails
 		calls := 12
 		for k := 0; k < calls; k++ {
-			fmt.Fprintf(w, "R %d %s %d %d 0 %s X:injected P:%s\n", r.Pick([]int{1, 4}), bf.ref, r.Pick([]int{0, 4096}), k,
+			fmt.Fprintf(w, "R %d %s %d %d%s 0 %s X:injected P:%s\n", r.Pick([]int{1, 4}), bf.ref, r.Pick([]int{0, 4096}), k, []string{"", "~"}[r.Intn(2)],
 				[]string{"wt:-1", fmt.Sprintf("r:%d r:%d r:9", bf.clen+1, bf.clen+1)}[r.Intn(2)], bf.content)
 		}
 	}
